@@ -19,18 +19,18 @@ func init() {
 				cmp = append(cmp, mkPath(filterStep(e)))
 			}
 			cmp = dedupPaths(cmp)
-			a := samplePaths(cmp, tierN(tier, 400, 6000), rng)
+			a := samplePaths(cmp, tierN(tier, 220, 6000), rng)
 			jobs := evalJobs("c10f", a, "C01,C03", tier, false, false)
 			jobs = append(jobs, evalJobs("c10n", a, "C01,C03", tier, false, true)...)
 			// mixed: float64 and json.Number leaves in one document
-			for i, p := range samplePaths(cmp, tierN(tier, 150, 2000), rng) {
+			for i, p := range samplePaths(cmp, tierN(tier, 80, 2000), rng) {
 				cfg := docCfg(2, 2, []string{"a", "b"}, engine.KNil|engine.KBool|engine.KFloat|engine.KNumber|engine.KString)
 				jobs = append(jobs, &engine.Job{ID: fmt.Sprintf("c10m-%d", i), Harness: "zzH_Eval",
-					Params: map[string]string{"path": p.Text, "ast": p.Ast, "holes": p.Holes, "config": "", "checks": "C01,C03"},
+					Params: map[string]string{"path": p.Text, "ast": p.Ast, "holes": p.Holes, "config": "", "checks": "C01,C03", "infilter": "0"},
 					Docs:   map[string]*engine.DocCfg{"doc": cfg}, MaxPaths: 300000})
 			}
 			// twin relation
-			tw := samplePaths(cmp, tierN(tier, 300, 6000), rng)
+			tw := samplePaths(cmp, tierN(tier, 200, 6000), rng)
 			for i, p := range tw {
 				expr := p.Steps[0].Text
 				expr = expr[3 : len(expr)-2]
